@@ -225,7 +225,7 @@ def clientCase (hdr : String) (lines : List String) : List String :=
         mon "C31" (Spec.ClientSpec.c31 cfg tr) ++ mon "C28" (Spec.ClientSpec.c28 cfg tr tEnd) ++
         mon "C25" (Spec.ClientSpec.c25 tr) ++ mon "C27" (Spec.ClientSpec.c27 cfg tr) ++
         mon "C33" (Spec.ClientSpec.c33 cfg tr tEnd) ++ mon "C06" (Spec.ClientSpec.c06 tr) ++
-        mon "C16" (Spec.ClientSpec.c16 tr)
+        mon "C16" (Spec.ClientSpec.c16 cfg tr)
       d1 ++ d2 ++ d3 ++ ms
     | none, _ => [s!"BADLINE unparsable event in case {caseId}"]
     | _, none => [s!"BADLINE unparsable output in case {caseId}"]
